@@ -31,6 +31,7 @@ func gitStatus(dir string) string {
 func main() {
 	dir := flag.String("dir", "/repo", "repository root")
 	verif := flag.String("verif", "/verif", "verif root (evidence, reports, known findings)")
+	outDir := flag.String("out", "", "where evidence/ and reports/ are written (default: the verif root); used when checking scratch variants")
 	noSelf := flag.Bool("no-selftest", false, "thorough: skip mutant self-validation")
 	dump := flag.String("dump", "", "developer aid: print the SSA of rel:Recv:name (e.g. collect:CollectorWorker:makeDecision)")
 	selfOnly := flag.Bool("selftest", false, "run only the mutant self-validation of the property (developer aid)")
@@ -146,7 +147,11 @@ func main() {
 				exit = 2
 			}
 		}
-		res := c.Finish(*verif, tier, seed, t1.Add(-time.Duration(loadS*float64(time.Second))), kf, extra)
+		out := *verif
+		if *outDir != "" {
+			out = *outDir
+		}
+		res := c.Finish(out, tier, seed, t1.Add(-time.Duration(loadS*float64(time.Second))), kf, extra)
 		if res.ExitCode > exit {
 			exit = res.ExitCode
 		}
